@@ -46,12 +46,13 @@ func IsIdentifier(s string) bool {
 }
 
 // NeedsHTMLEscape checks if a string contains characters that need HTML escaping.
-// Returns true if the string contains &, <, >, ", or ' characters.
+// Returns true if the string contains &, <, >, ", ' or a carriage return - the characters
+// html.EscapeString rewrites (a raw carriage return is read back as a line feed by an HTML parser).
 // This avoids calling html.EscapeString which always allocates a new string.
 func NeedsHTMLEscape(s string) bool {
 	for i := 0; i < len(s); i++ {
 		switch s[i] {
-		case '&', '<', '>', '"', '\'':
+		case '&', '<', '>', '"', '\'', '\r':
 			return true
 		}
 	}
